@@ -59,6 +59,8 @@ inductive Body where
   | hereDoc (content : List Nat)
   | unsupported                            -- `>>|` and `<<<`
   | expErr                                 -- the operand's expansion fails
+  | nulPath                                -- the expanded pathname contains a NUL byte (`NulByte`)
+  | fileCs (op : FileOp) (path : Nat)      -- the pathname comes out of a command substitution
   deriving DecidableEq, Repr
 
 structure Redir where
@@ -76,6 +78,7 @@ inductive ErrCause where
   | unwritableFd (fd : Fd)
   | tmpUnavailable (e : Errno)
   | unsupported
+  | nulByte
   deriving DecidableEq, Repr
 
 /-- `SavedFd` -/
@@ -184,6 +187,14 @@ def hereDocFd (o : Oracle W) (w : W) (t : FdTable) (content : List Nat) : R W Fd
     if (o.fill w2 (o.tmpfile w).2 content).2 then { w := (o.fill w2 (o.tmpfile w).2 content).1, t := t', r := .ok (.owned fd) }
     else { w := (o.fill w2 (o.tmpfile w).2 content).1, t := t'.close fd, r := .error (.tmpUnavailable .EIO) }
 
+/-- `System::pipe` as the command substitution in an operand needs it
+    (`expansion/initial/command_subst.rs`): two descriptors, the lowest free and the next, both
+    closed again before the file is opened.  `false` = EMFILE: the expansion fails. -/
+def pipeAvailable (o : Oracle W) (w : W) (t : FdTable) : W × Bool :=
+  ((o.deny w).1,
+   !(o.deny w).2 && t.inLimit (t.minUnused 0) &&
+     (t.put (t.minUnused 0) (some ⟨0, false⟩)).inLimit ((t.put (t.minUnused 0) (some ⟨0, false⟩)).minUnused 0))
+
 /-- first half of `open_and_overwrite`: "Prepare an FD from the redirection body" -/
 def prepare (o : Oracle W) (w : W) (t : FdTable) (b : Body) : R W FdSpec :=
   match b with
@@ -192,6 +203,10 @@ def prepare (o : Oracle W) (w : W) (t : FdTable) (b : Body) : R W FdSpec :=
   | .hereDoc content => hereDocFd o w t content
   | .unsupported => { w := w, t := t, r := .error .unsupported }
   | .expErr => { w := w, t := t, r := .error .expansion }
+  | .nulPath => { w := w, t := t, r := .error .nulByte }
+  | .fileCs op path =>
+    if (pipeAvailable o w t).2 then openNormalFile o (pipeAvailable o w t).1 t op path
+    else { w := (pipeAvailable o w t).1, t := t, r := .error .expansion }
 
 /-- second half of `open_and_overwrite`: `dup2` onto the target and close of the owned descriptor
     (skipped when the opened descriptor *is* the target), or close of the target for `-` -/
